@@ -51,6 +51,10 @@ sexp sexp_get_stack_trace (sexp ctx) {
   sexp_gc_preserve2(ctx, res, cell);
   res = SEXP_NULL;
   for (i=fp; i>4; i=sexp_unbox_fixnum(stack[i+3])) {
+    /* the base frame of a nested sexp_apply has no saved fp */
+    if (i+3 >= (sexp_sint_t)sexp_stack_length(sexp_context_stack(ctx))
+        || !sexp_fixnump(stack[i+3]))
+      break;
     self = stack[i+2];
     if (self && sexp_procedurep(self)) {
       bc = sexp_procedure_code(self);
